@@ -133,7 +133,10 @@ def ser_tree(t, pick=None):
     if k == "t": return hd(3, len(t[1])) + t[1]
     if k == "bi": return b"\x5f" + b"".join(hd(2, len(c)) + c for c in t[1]) + b"\xff"
     if k == "ti": return b"\x7f" + b"".join(hd(3, len(c)) + c for c in t[1]) + b"\xff"
-    if k == "s": return bytes([0xe0 + t[1]]) if t[1] < 24 else bytes([0xf8, t[1]])
+    if k == "s":
+        # RFC 8949 3.3: simple values 24..31 do not exist (f8 00..f8 1f is not well-formed); the reference has nothing to write
+        if 24 <= t[1] < 32: raise ValueError("simple(%d) has no well-formed encoding" % t[1])
+        return bytes([0xe0 + t[1]]) if t[1] < 24 else bytes([0xf8, t[1]])
     if k == "f": return bytes([{2: 0xf9, 4: 0xfa, 8: 0xfb}[t[1]]]) + t[2].to_bytes(t[1], "big")
     if k == "a": return hd(4, len(t[1])) + b"".join(ser_tree(x, pick) for x in t[1])
     if k == "ai": return b"\x9f" + b"".join(ser_tree(x, pick) for x in t[1]) + b"\xff"
